@@ -31,6 +31,8 @@ pub enum Op {
     SupChoke(u16),
     SupUnchoke(u16),
     SupHave(u16, u16),
+    /// this many correct deliveries in a row (one barrier each)
+    DeliverMany(u8),
 }
 
 #[derive(Clone, Debug, Serialize, Deserialize)]
@@ -55,9 +57,14 @@ fn strategy() -> BoxedStrategy<Case> {
         2 => any::<u16>().prop_map(Op::SupChoke),
         3 => any::<u16>().prop_map(Op::SupUnchoke),
         1 => (any::<u16>(), any::<u16>()).prop_map(|(a, b)| Op::SupHave(a, b)),
+        1 => (100u8..200).prop_map(Op::DeliverMany),
     ];
-    (2usize..=20, prop_oneof![2 => Just(1usize), 2 => 1usize..=40, 3 => Just(20000usize)], vec(op, 0..60), any::<u64>())
-        .prop_map(|(pieces, piece_len, ops, seed)| Case { pieces: if piece_len > 1000 { pieces.min(5) } else { pieces }, piece_len, ops, seed })
+    (prop_oneof![12 => 2usize..=20, 1 => 130usize..=170], prop_oneof![2 => Just(1usize), 2 => 1usize..=40, 3 => Just(20000usize)], vec(op, 0..60), any::<u64>())
+        .prop_map(|(pieces, piece_len, ops, seed)| {
+            // many pieces only with tiny pieces
+            let piece_len = if pieces > 20 { 1 + piece_len % 4 } else { piece_len };
+            Case { pieces: if piece_len > 1000 { pieces.min(5) } else { pieces }, piece_len, ops, seed }
+        })
         .boxed()
 }
 
@@ -147,6 +154,23 @@ pub fn check(c: &Case) -> Outcome {
                         }
                     }
                     Op::Deliver(s) => deliver(&mut net, w, *s, false, &mut classes),
+                    Op::DeliverMany(k) => {
+                        // a long run of completions (more than any plausible internal queue bound) - typically while some
+                        // observer is choking the client
+                        let mut done = 0usize;
+                        for _ in 0..*k {
+                            let sup: Vec<usize> = suppliers.iter().copied().filter(|p| net.alive(w, *p) && !net.peers[*p].view.outstanding.is_empty()).collect();
+                            if sup.is_empty() || w.fatal().is_some() {
+                                break;
+                            }
+                            net.answer(w, sup[0], 0);
+                            net.observe(w).await;
+                            done += 1;
+                        }
+                        if done >= 100 && observers.iter().any(|ob| ob.chokes && ob.init_at.is_some() && net.alive(w, ob.p)) {
+                            classes.push(">=100-completions-while-an-observer-chokes");
+                        }
+                    }
                     Op::DeliverCorrupt(s) => deliver(&mut net, w, *s, true, &mut classes),
                     Op::ObserverJoin { outgoing, with_delivery } => {
                         if observers.len() < 3 {
@@ -358,7 +382,7 @@ pub fn def() -> PropDef {
         id: "C11",
         rule: "one or two supplier peers deliver single-block pieces (2-20 pieces of 1-40 bytes, or 20000-byte two-block pieces) at generated points of a global schedule of up to 60 ops, some deliveries corrupt, suppliers may choke the client in the middle of a piece and unchoke it later; up to three observer connections (incoming or outgoing; outgoing ones may send their own handshake much later than the client's) handshake at generated points - also in the same barrier as a delivery - and choke / unchoke the client at generated points; at the end every observer unchokes. The harness knows A(t), the completion order the manager has handled (every command passes through the stepper), and D(t), the pieces verified on disk. Oracle: an observer's bitfield satisfies A(at its Init) <= bits <= D, spare bits zero; every Have(i) has i in D at the barrier it is read; for each observer the Haves for pieces completed after its Init arrive exactly in completion order, and whenever the observer is not choking the client none is missing. Non-trivial = an observer handshake after at least one and before the last completion, and a completion while that observer chokes the client; distinct by hash of the case.",
         assumptions: &[
-            "fewer than 32 completions happen between two barriers of any connection task (the broadcast channel holds 32 commands; lagging receivers are a capacity question the property does not speak about)",
+            "fewer than 32 completions happen between two barriers of any connection task (each completion has its own barrier, also in the long runs of 100-200 completions) (the broadcast channel holds 32 commands; lagging receivers are a capacity question the property does not speak about)",
             "D is sampled at barriers; a bitfield is compared with D at the end of the barrier in which it was read (D is monotone)",
         ],
         subs: vec![Sub {
@@ -366,7 +390,7 @@ pub fn def() -> PropDef {
             cases: |t| t.pick(12_000, 150_000),
             run: |ctx| run_proptest(ctx, "announcements", strategy(), check),
             replay: |v| replay_case::<Case>(v, check),
-            min_class: &[("observer-handshake-between-completions", 0.3), ("completion-while-observer-chokes", 0.3), ("observer-bitfield-checked", 0.4288), ("handshake-and-delivery-in-same-barrier", 0.2), ("corrupt-completion", 0.2), ("outgoing-observer-handshakes-late", 0.1), ("supplier-chokes-mid-piece", 0.1)],
+            min_class: &[("observer-handshake-between-completions", 0.3), ("completion-while-observer-chokes", 0.3), ("observer-bitfield-checked", 0.4288), ("handshake-and-delivery-in-same-barrier", 0.2), ("corrupt-completion", 0.2), ("outgoing-observer-handshakes-late", 0.1), ("supplier-chokes-mid-piece", 0.1), (">=100-completions-while-an-observer-chokes", 0.003)],
         }],
     }
 }
